@@ -19,6 +19,10 @@ def aidx(s):
     return int(s[1:])
 
 
+def _checksum(x):
+    return sum(_checksum(v) for v in x) if isinstance(x, (list, tuple)) else int(x)
+
+
 class _ScriptMixin:
     def _setup(self, script, obs_space=None, act_space=None):
         kind, n, learn, rows = script
@@ -44,7 +48,19 @@ class _ScriptMixin:
         self.pend = [0] * n
         self.steps = []
         self.reads = []
+        # two habits of real simulations that are invisible to the models (harness-only variety,
+        # chosen by a checksum of the script): done flags as numpy booleans, and agents whose
+        # `active` attribute follows their done state and is restored by reset
+        fl = (_checksum(rows) + n) % 4
+        self.np_bools = bool(fl & 1)
+        self.track_active = bool(fl & 2)
         self.finalize()
+
+    def _sync_active(self):
+        if self.track_active:
+            d = self.row()[0]
+            for i in range(self.script_n):
+                self.agents[aid(i)].active = not bool(d[i] if i < len(d) else 0)
 
     def row(self):
         return self.rows[min(self.t, len(self.rows) - 1)]
@@ -52,6 +68,7 @@ class _ScriptMixin:
     def reset(self, **kwargs):
         self.t = 0
         self.pend = [0] * self.script_n
+        self._sync_active()
         if isinstance(self, DynamicOrderSimulation):
             self.next_agent = [aid(i) for i in self.row()[2]]
 
@@ -61,6 +78,7 @@ class _ScriptMixin:
         acc = self.row()[3]
         for i in range(min(len(acc), self.script_n)):
             self.pend[i] += acc[i]
+        self._sync_active()
         if isinstance(self, DynamicOrderSimulation):
             self.next_agent = [aid(i) for i in self.row()[2]]
 
